@@ -663,4 +663,56 @@ func clInsertStopsWhenMarked(c *Ctx) {
 	if n == 0 {
 		undecidedf("Insert4: no upper-level link CAS found")
 	}
+	// the new node's own successor at that level is (re)synchronised with the
+	// successor the predecessor is expected to have, before it is linked in
+	for _, d := range p.CallSites(fn, dcas) {
+		args := callOf(d).Args
+		if strip(args[0]) == x || strip(args[3]) != x || isConstInt(0)(args[1]) {
+			continue
+		}
+		next := strip(args[2])
+		// the examination of x's own pointer in this iteration
+		var gn *ssa.Call
+		for _, g := range p.CallSites(fn, getNext) {
+			gc := g.(*ssa.Call)
+			if strip(gc.Call.Args[0]) == x && strip(gc.Call.Args[1]) == strip(args[1]) && fi.Dominates(g, d) {
+				gn = gc
+			}
+		}
+		if gn == nil {
+			c.Check(false, fn, d, "new node's own successor is examined before each upper-level link", "the insert links the node at a level without looking at its own pointer at that level")
+			continue
+		}
+		var own ssa.Value
+		for _, r := range referrersOf(gn) {
+			if e, ok := r.(*ssa.Extract); ok && e.Index == 0 {
+				own = e
+			}
+		}
+		var selfCAS ssa.Value
+		for _, s2 := range p.CallSites(fn, dcas) {
+			a2 := callOf(s2).Args
+			if strip(a2[0]) == x && own != nil && strip(a2[2]) == own && strip(a2[3]) == next {
+				selfCAS = s2.(ssa.Value)
+			}
+		}
+		same := fi.edgeWhere(token.EQL, func(v ssa.Value) bool { return own != nil && strip(v) == own }, isValue(next))
+		synced := func(pb, sb *ssa.BasicBlock) bool {
+			if same(pb, sb) {
+				return true
+			}
+			if selfCAS == nil || len(pb.Instrs) == 0 {
+				return false
+			}
+			ifi, ok := pb.Instrs[len(pb.Instrs)-1].(*ssa.If)
+			if !ok || len(pb.Succs) != 2 {
+				return false
+			}
+			f := normFact(ifi.Cond, pb.Succs[0] == sb)
+			return f.V == selfCAS && f.Val
+		}
+		stale := fi.PathAvoidingEdges(gn, func(y ssa.Instruction) bool { return y == d }, nil, synced)
+		c.Check(stale == nil, fn, d, "new node points at the successor its predecessor is expected to have before it is linked at an upper level",
+			"after a failed upper-level CAS the path is recomputed, but the node's own next pointer at that level still names the OLD successor: a node inserted in between at that level becomes unreachable there (the level is no longer a sub-sequence of the level below)")
+	}
 }
